@@ -6,7 +6,7 @@
 (* the greedy parallel pairing, re-fragmentation of rejected spans in isolation.             *)
 (* Deliberate deviations: exact integer geometry where the code uses f32; the catalogue      *)
 (* lookup (stage 6) is in Catalogue.tla and is the identity on spans over `Modelled`.        *)
-EXTENDS Glyphs, SequencesExt, TLC
+EXTENDS PipelineOps
 
 VARIABLES rows,    \* the input: sequence of rows, each a sequence of code points
           stage,   \* "input" -> "cells" -> "spans" -> "done"
@@ -16,176 +16,6 @@ VARIABLES rows,    \* the input: sequence of rows, each a sequence of code point
           acc,     \* per-span results so far
           out      \* the abstract elements of the final document
 vars == <<rows, stage, cells, spans, k, acc, out>>
-
-------------------------------------------------------------------------
-(* generic greedy merge (merge.rs)                                                         *)
-Absorb(lst, it, Can(_, _), Mrg(_, _)) ==
-   LET idx == {i \in 1..Len(lst) : Can(lst[i], it)} IN
-   IF idx = {} THEN Append(lst, it)
-   ELSE LET i == SetMax(idx) IN [lst EXCEPT ![i] = Mrg(lst[i], it)]
-SecondPass(items, Can(_, _), Mrg(_, _)) ==
-   FoldLeft(LAMBDA lst, it : Absorb(lst, it, Can, Mrg), <<>>, items)
-MergeRec(items0, Can(_, _), Mrg(_, _)) ==
-   LET RECURSIVE R(_)
-       R(items) == LET m == SecondPass(items, Can, Mrg) IN
-                   IF Len(m) < Len(items) THEN R(m) ELSE m
-   IN R(items0)
-SortSet(S0, Lt(_, _)) ==
-   LET RECURSIVE R(_)
-       R(S) == IF S = {} THEN <<>> ELSE
-               LET m == CHOOSE x \in S : \A y \in S \ {x} : Lt(x, y) IN <<m>> \o R(S \ {m})
-   IN R(S0)
-\* stable insertion sort
-StableSort(s0, Lt(_, _)) ==
-   LET Ins(lst, x) ==
-         LET pos == IF \E i \in 1..Len(lst) : Lt(x, lst[i])
-                    THEN CHOOSE i \in 1..Len(lst) : Lt(x, lst[i]) /\ \A j \in 1..(i-1) : ~Lt(x, lst[j])
-                    ELSE Len(lst) + 1
-         IN SubSeq(lst, 1, pos - 1) \o <<x>> \o SubSeq(lst, pos, Len(lst))
-   IN FoldLeft(Ins, <<>>, s0)
-
-------------------------------------------------------------------------
-(* stage 4: cells; stage 5: spans                                                          *)
-IsBlank(ch) == ch \in {32, 9, 0}
-CellSeq(rws) ==
-  LET
-      T == { t \in UNION { { <<c - 1, r - 1, rws[r][c]>> : c \in 1..Len(rws[r]) } : r \in 1..Len(rws) } : ~IsBlank(t[3]) }
-  IN SortSet(T, LAMBDA p, q : PLt(<<p[1], p[2]>>, <<q[1], q[2]>>))
-Adjacent(p, q) == (p[1] - q[1]) \in -1..1 /\ (p[2] - q[2]) \in -1..1
-SpanCan(s, t) == \E p \in RangeOf(s), q \in RangeOf(t) : Adjacent(p, q)
-SpanMrg(s, t) == s \o t
-SpansOf(cs) == MergeRec([i \in 1..Len(cs) |-> << <<cs[i][1], cs[i][2]>> >>], SpanCan, SpanMrg)
-
-ChAt(cs, x, y) == IF \E i \in 1..Len(cs) : cs[i][1] = x /\ cs[i][2] = y
-                  THEN cs[CHOOSE i \in 1..Len(cs) : cs[i][1] = x /\ cs[i][2] = y][3] ELSE cSP
-
-------------------------------------------------------------------------
-(* stage 7: fragments of a cell, given the characters of its own span only                 *)
-ChIn(cs, sp, x, y) == IF <<x, y>> \in RangeOf(sp) THEN ChAt(cs, x, y) ELSE cSP
-Neigh(cs, sp, cl) ==
-  [tl |-> ChIn(cs, sp, cl[1]-1, cl[2]-1), t |-> ChIn(cs, sp, cl[1], cl[2]-1), tr |-> ChIn(cs, sp, cl[1]+1, cl[2]-1),
-   l  |-> ChIn(cs, sp, cl[1]-1, cl[2]),                                        r  |-> ChIn(cs, sp, cl[1]+1, cl[2]),
-   bl |-> ChIn(cs, sp, cl[1]-1, cl[2]+1), b |-> ChIn(cs, sp, cl[1], cl[2]+1), br |-> ChIn(cs, sp, cl[1]+1, cl[2]+1)]
-Mins(fr) == <<Min2(fr.s[1], fr.e[1]), Min2(fr.s[2], fr.e[2])>>
-Maxs(fr) == <<Max2(fr.s[1], fr.e[1]), Max2(fr.s[2], fr.e[2])>>
-Rank(fr) == IF fr.k = "L" THEN 10 ELSE 40
-BLt(x, z) == x = FALSE /\ z = TRUE
-FragLt(x, z) ==
-  IF x.k = "L" /\ z.k = "L"
-    THEN PLt(x.s, z.s) \/ (x.s = z.s /\ (PLt(x.e, z.e) \/ (x.e = z.e /\ BLt(x.b, z.b))))
-  ELSE IF x.k = "A" /\ z.k = "A"
-    THEN PLt(x.s, z.s) \/ (x.s = z.s /\ (PLt(x.e, z.e) \/ (x.e = z.e /\ (x.r < z.r \/ (x.r = z.r /\ BLt(x.sw, z.sw))))))
-  ELSE PLt(Mins(x), Mins(z)) \/ (Mins(x) = Mins(z) /\ (PLt(Maxs(x), Maxs(z)) \/ (Maxs(x) = Maxs(z) /\ Rank(x) < Rank(z))))
-Shift(fr, cl) == LET mv(p) == <<p[1] + CW * cl[1], p[2] + CH * cl[2]>> IN
-                 [fr EXCEPT !.s = mv(fr.s), !.e = mv(fr.e)]
-CellFrags(cs, sp, cl) ==
-  LET ch == ChAt(cs, cl[1], cl[2])
-      rs == Rules(ch, Neigh(cs, sp, cl))
-      fired == FoldLeft(LAMBDA lst, ru : IF ru[1] THEN lst \o ru[2] ELSE lst, <<>>, rs)
-  IN IF fired = <<>> THEN << [k |-> "T", cell |-> cl, s |-> <<ch>>, cells |-> <<cl>>] >>
-     ELSE LET sorted == StableSort(fired, FragLt) IN
-          [i \in 1..Len(sorted) |-> Shift(sorted[i], cl) @@ [cells |-> <<cl>>]]
-\* FragmentBuffer is a BTreeMap: cells come out in (y, x) order whatever order they went in
-SpanFrags(cs, sp) == FoldLeft(LAMBDA lst, cl : lst \o CellFrags(cs, sp, cl), <<>>, SortSet(RangeOf(sp), PLt))
-
-------------------------------------------------------------------------
-(* stage 8: merge fragments                                                                *)
-\* a text occupies as many cells as the display widths of its characters add up to
-TextWidth(s) == FoldLeft(LAMBDA n, c : n + (IF WideCp(c) THEN 2 ELSE 1), 0, s)
-Touching(l1, l2) == OnSeg(l2.s, l1.s, l1.e) \/ OnSeg(l2.e, l1.s, l1.e) \/ OnSeg(l1.s, l2.s, l2.e) \/ OnSeg(l1.e, l2.s, l2.e)
-FragCan(x, z) ==
-  IF x.k = "L" /\ z.k = "L" THEN Touching(x, z) /\ Collinear(x.s, x.e, z.s) /\ Collinear(x.s, x.e, z.e)
-  ELSE IF x.k = "T" /\ z.k = "T"
-    THEN x.cell[2] = z.cell[2] /\ (x.cell[1] + TextWidth(x.s) = z.cell[1] \/ z.cell[1] + TextWidth(z.s) = x.cell[1])
-  ELSE FALSE
-FragMrg(x, z) ==
-  IF x.k = "L" THEN [k |-> "L", s |-> PMin(x.s, z.s), e |-> PMax(x.e, z.e), b |-> (x.b \/ z.b), cells |-> x.cells \o z.cells]
-  ELSE IF x.cell[1] < z.cell[1] THEN [k |-> "T", cell |-> x.cell, s |-> x.s \o z.s, cells |-> x.cells \o z.cells]
-  ELSE [k |-> "T", cell |-> z.cell, s |-> z.s \o x.s, cells |-> x.cells \o z.cells]
-Merged(cs, sp) == MergeRec(SpanFrags(cs, sp), FragCan, FragMrg)
-
-------------------------------------------------------------------------
-(* stage 9: contact groups; stage 10: rect endorsement                                     *)
-TextCells(tx) == { <<tx.cell[1] + i, tx.cell[2]>> : i \in 0..(TextWidth(tx.s) - 1) }
-EndTouch(x, z) == x.s = z.s \/ x.e = z.e \/ x.s = z.e \/ x.e = z.s
-FragContact(x, z) ==
-  IF x.k = "L" /\ z.k = "L" THEN Touching(x, z)
-  ELSE IF x.k \in {"L", "A"} /\ z.k \in {"L", "A"} THEN EndTouch(x, z)
-  ELSE IF x.k = "T" /\ z.k = "T" THEN \E c1 \in TextCells(x), c2 \in TextCells(z) : c1[2] = c2[2] /\ Adjacent(c1, c2)
-  ELSE FALSE
-GroupCan(G1, G2) == \E i \in 1..Len(G1), j \in 1..Len(G2) : FragContact(G1[i], G2[j])
-GroupMrg(G1, G2) == G1 \o G2
-ContactsOf(frs) == MergeRec([i \in 1..Len(frs) |-> <<frs[i]>>], GroupCan, GroupMrg)
-Horiz(ln) == ln.s[2] = ln.e[2]
-Vert(ln) == ln.s[1] = ln.e[1]
-AabbPar(x, z) == x.k = "L" /\ z.k = "L" /\
-   ((Horiz(x) /\ Horiz(z) /\ x.s[1] = z.s[1] /\ x.e[1] = z.e[1]) \/ (Vert(x) /\ Vert(z) /\ x.s[2] = z.s[2] /\ x.e[2] = z.e[2]))
-ParPairs(GG) ==
-  LET nn == Len(GG)
-      step(lst, ij) == LET used == UNION {{prs[1], prs[2]} : prs \in RangeOf(lst)} IN
-                       IF ij[1] # ij[2] /\ ij[1] \notin used /\ ij[2] \notin used /\ AabbPar(GG[ij[1]], GG[ij[2]])
-                       THEN Append(lst, ij) ELSE lst
-      pairs == [t \in 1..(nn * nn) |-> << ((t - 1) \div nn) + 1, ((t - 1) % nn) + 1 >>]
-  IN FoldLeft(step, <<>>, pairs)
-Perp(x, z) == (Horiz(x) /\ Vert(z)) \/ (Vert(x) /\ Horiz(z))
-BoundsPts(GG) == UNION {{Mins(GG[i]), Maxs(GG[i])} : i \in 1..Len(GG)}
-PtMin(S) == CHOOSE p \in S : \A q \in S : PLe(p, q)
-PtMax(S) == CHOOSE p \in S : \A q \in S : PLe(q, p)
-\* every endpoint is a corner of the common bounding box (endorse.rs is_closed_outline)
-ClosedOutline(GG) ==
-  LET pts == BoundsPts(GG) mn == PtMin(pts) mx == PtMax(pts) IN
-  \A p \in pts : (p[1] = mn[1] \/ p[1] = mx[1]) /\ (p[2] = mn[2] \/ p[2] = mx[2])
-IsRectGroup(GG) ==
-  /\ Len(GG) = 4
-  /\ LET prs == ParPairs(GG) IN
-     /\ Len(prs) = 2
-     /\ Touching(GG[prs[1][1]], GG[prs[2][1]]) /\ Perp(GG[prs[1][1]], GG[prs[2][1]])
-     /\ Touching(GG[prs[1][2]], GG[prs[2][2]]) /\ Perp(GG[prs[1][2]], GG[prs[2][2]])
-     /\ ClosedOutline(GG)
-RightArc(x) == x.k = "A" /\ Abs(x.s[1] - x.e[1]) = x.r /\ Abs(x.s[2] - x.e[2]) = x.r
-IsRoundedGroup(GG) ==
-  /\ Len(GG) = 8
-  /\ LET prs == ParPairs(GG) IN
-     /\ Len(prs) = 2 /\ Cardinality({i \in 1..8 : RightArc(GG[i])}) = 4
-     /\ Perp(GG[prs[1][1]], GG[prs[2][1]]) /\ Perp(GG[prs[1][2]], GG[prs[2][2]])
-AnyBroken(GG) == \E i \in 1..Len(GG) : GG[i].k = "L" /\ GG[i].b
-RectOf(GG) ==
-  LET pts == BoundsPts(GG)
-      rad == IF IsRectGroup(GG) THEN 0
-             ELSE GG[CHOOSE i \in 1..8 : RightArc(GG[i]) /\ \A j \in 1..(i - 1) : ~RightArc(GG[j])].r
-  IN [k |-> "R", s |-> PtMin(pts), e |-> PtMax(pts), r |-> rad, b |-> AnyBroken(GG)]
-Endorsable(GG) == IsRectGroup(GG) \/ IsRoundedGroup(GG)
-
-------------------------------------------------------------------------
-(* stages 11-12: rejected groups go back to cells, are regrouped into spans and fragmented *)
-(* again in isolation                                                                      *)
-\* (a fragment remembers the cells whose characters produced it: FragmentSpan.span)
-GroupCells(GG) == FoldLeft(LAMBDA lst, fr : lst \o fr.cells, <<>>, GG)
-SpanResult(cs, sp) ==
-  LET groups == ContactsOf(Merged(cs, sp))
-      rects == SelectSeq(groups, Endorsable)
-      rej == SelectSeq(groups, LAMBDA GG : ~Endorsable(GG))
-      rspans == MergeRec([i \in 1..Len(rej) |-> GroupCells(rej[i])], SpanCan, SpanMrg)
-      regroups == FoldLeft(LAMBDA lst, sp2 : lst \o ContactsOf(Merged(cs, sp2)), <<>>, rspans)
-  IN [rects |-> [i \in 1..Len(rects) |-> RectOf(rects[i])],
-      singles |-> FoldLeft(LAMBDA lst, GG : IF Len(GG) = 1 THEN Append(lst, GG[1]) ELSE lst, <<>>, regroups),
-      groups |-> SelectSeq(regroups, LAMBDA GG : Len(GG) > 1)]
-
-------------------------------------------------------------------------
-(* stage 16: the abstract elements (lattice units), as tuples comparable with the          *)
-(* projection of the real output: <<kind, numbers..., flags>>                              *)
-B01(b) == IF b THEN 1 ELSE 0
-Strip(fr) ==
-  IF fr.k = "L" THEN <<"line", fr.s[1], fr.s[2], fr.e[1], fr.e[2], B01(fr.b)>>
-  ELSE IF fr.k = "A" THEN <<"path", fr.s[1], fr.s[2], fr.r, B01(fr.sw), fr.e[1], fr.e[2]>>
-  ELSE IF fr.k = "R" THEN <<"rect", fr.s[1], fr.s[2], fr.e[1] - fr.s[1], fr.e[2] - fr.s[2], fr.r, B01(fr.b)>>
-  ELSE <<"text", fr.cell[1] * CW + 2, fr.cell[2] * CH + 12, fr.s>>
-Flatten(results) ==
-  LET flat == FoldLeft(LAMBDA lst, rr : lst \o rr.rects \o rr.singles
-                          \o FoldLeft(LAMBDA a2, GG : a2 \o GG, <<>>, rr.groups), <<>>, results)
-  IN [i \in 1..Len(flat) |-> Strip(flat[i])]
-Output(rws) == LET cs == CellSeq(rws) sps == SpansOf(cs) IN
-               Flatten([i \in 1..Len(sps) |-> SpanResult(cs, sps[i])])
 
 ------------------------------------------------------------------------
 (* the transition system                                                                   *)
